@@ -183,5 +183,35 @@ def depthL : List Formula → Nat
   | f :: fs => max (depth f) (depthL fs) + 1
 end
 
+mutual
+/-- `{name}` references with definitions (`ParsedFormula::define`, `ReferenceContents::Syntax`):
+`eval_recursive`, `replace_var` and `var_is_free` all continue into the definition's syntax tree,
+so a defined reference behaves as its definition written in place (definitions are looked up
+when the reference is reached, so a redefinition is seen by the next evaluation).  `fuel` bounds
+the unfolding (a cyclic definition makes the Rust code recurse forever). -/
+def inlineRefs (defs : List (String × Formula)) : Nat → Formula → Formula
+  | 0, f => f
+  | fuel + 1, .ref n =>
+    match defs.lookup n with
+    | some d => inlineRefs defs fuel d
+    | none => .ref n
+  | fuel + 1, .not f => .not (inlineRefs defs fuel f)
+  | fuel + 1, .quant q vs f => .quant q vs (inlineRefs defs fuel f)
+  | fuel + 1, .cntConst op fs n => .cntConst op (inlineRefsL defs fuel fs) n
+  | fuel + 1, .cntVar op l r => .cntVar op (inlineRefsL defs fuel l) (inlineRefsL defs fuel r)
+  | fuel + 1, .fix x i f => .fix x i (inlineRefs defs fuel f)
+  | fuel + 1, .ite a b c => .ite (inlineRefs defs fuel a) (inlineRefs defs fuel b) (inlineRefs defs fuel c)
+  | fuel + 1, .bin op l r => .bin op (inlineRefs defs fuel l) (inlineRefs defs fuel r)
+  | _ + 1, f => f
+def inlineRefsL (defs : List (String × Formula)) : Nat → List Formula → List Formula
+  | 0, fs => fs
+  | _ + 1, [] => []
+  | fuel + 1, f :: fs => inlineRefs defs fuel f :: inlineRefsL defs fuel fs
+end
+
+/-- evaluation of a formula under definitions -/
+def evalDefs (defs : List (String × Formula)) (unfold iters fuel : Nat) (f : Formula) : Option BDD :=
+  evalF iters fuel (inlineRefs defs unfold f)
+
 end Formula
 end Rsbdd
